@@ -248,6 +248,19 @@ func unmarshalScalar[S any](src S, dst any) error {
 	return nil
 }
 
+// isInlineTag reports whether a yaml struct tag carries the inline flag. Like
+// yaml.v3, it looks for the flag among all the comma-separated flags after the
+// key, so `yaml:",inline,omitempty"` is an inline field too.
+func isInlineTag(tag string) bool {
+	_, flags, _ := strings.Cut(tag, ",")
+	for _, flag := range strings.Split(flags, ",") {
+		if flag == "inline" {
+			return true
+		}
+	}
+	return false
+}
+
 // decodeInto loads the contents of the map into the target (pointer to struct).
 // It behaves sort of like `yaml.Node.Decode`:
 //
@@ -365,13 +378,13 @@ func (m *Map[K, V]) decodeInto(target any) error {
 		// No worries if the tag is not there - apply defaults.
 		tag, _ := field.Tag.Lookup("yaml")
 
-		switch tag {
-		case "-":
+		switch {
+		case tag == "-":
 			// Note: if a field is skipped with "-", yaml.v3 still puts it into
 			// inline.
 			continue
 
-		case ",inline":
+		case isInlineTag(tag):
 			if inlineField.Index != nil {
 				return fmt.Errorf("%w %T", ErrMultipleInlineFields, target)
 			}
